@@ -91,16 +91,20 @@ structure Breaker where
   lastFailure : Int := 0      -- virtual ns; zero value of time.Time is "long ago" (see `fresh`)
   deriving Repr, DecidableEq
 
-/-- `Call(fn)` at time `now` where `fn` would return success iff `succ`.
+/-- `Call(fn)` entered at time `now`, where `fn` returns at `fin ≥ now`, with success iff `succ`.  The cooldown is
+    checked against the clock at entry; a failure is stamped with the clock when `fn` has returned.
     Returns the new breaker and whether `fn` was invoked. -/
-def Breaker.call (b : Breaker) (now : Int) (succ : Bool) : Breaker × Bool :=
+def Breaker.callD (b : Breaker) (now fin : Int) (succ : Bool) : Breaker × Bool :=
   if b.state = .opened ∧ now - b.lastFailure < b.cooldown then (b, false)
   else
     let b1 := if b.state = .opened then { b with state := .halfOpen } else b
     if succ then ({ b1 with failures := 0, state := .closed }, true)
     else
       let f := b1.failures + 1
-      ({ b1 with failures := f, lastFailure := now,
+      ({ b1 with failures := f, lastFailure := fin,
                  state := if f ≥ b1.threshold then .opened else b1.state }, true)
+
+/-- An operation that takes no time. -/
+def Breaker.call (b : Breaker) (now : Int) (succ : Bool) : Breaker × Bool := b.callD now now succ
 
 end NLE.Backoff
